@@ -11,6 +11,7 @@ RULE = ('(1) build event: the harness is compiled with the crate feature force-3
         'model; distinct = distinct case lines')
 ASSUMPTIONS = ['force-32bits on x86-64 stands in for a 32-bit target (no arm32 target is installed)', 'spec models of C12-C15']
 FLOORS = {'evaluations': 20000, 'distinct': 8000}
+THOROUGH_ROUNDS = 3   # thorough tier: generator passes with derived seeds (runner.gen_rounds)
 
 
 class _Mod:
@@ -36,6 +37,8 @@ def gen(tier, seed):
     from . import c12, c13, c14, c15
     for m in (c12, c13, c14, c15):
         for l in m.gen(tier, seed):
+            if l.endswith('#fe-deep64'):
+                continue      # sums of sums: outside the magnitude precondition the 32-bit backend documents for `+`
             if l.startswith('x25519_iter') and ' 1 #' not in l:
                 l = l.replace(' 10000 500 ', ' 1000 500 ')
             yield l
@@ -44,7 +47,7 @@ def gen(tier, seed):
 def run(tier, seed, replay=None):
     rep = R.Report(ID, tier, seed)
     rep.rule = RULE; rep.assumptions = list(ASSUMPTIONS)
-    lines = [l.rstrip('\n') for l in open(replay) if l.strip() and not l.startswith('#')] if replay else list(gen(tier, seed))
+    lines = [l.rstrip('\n') for l in open(replay) if l.strip() and not l.startswith('#')] if replay else R.gen_rounds(__import__('sys').modules[__name__], tier, seed)
     wd = R.workdir(ID)
     casefile = os.path.join(wd, 'cases-%s-%d.txt' % (tier, seed))
     R.write_cases(casefile, lines)
